@@ -283,6 +283,64 @@ def mutate(rng, text):
     return ''.join(tokens)
 
 
+TWIN_LITERALS = [('Cafe', 'CAFE'), ('cafe', 'Cafe'), ('Coffee shop', 'Coffee  shop'), ('a b', 'a\tb'), ('x', 'x '), (' x', 'x'), ('a\nb', 'a b'),
+                 ('Assets:Cash', 'assets:cash'), ('', ' '), ('é', 'É')]
+TWIN_TEXTS = [('SELECT 1 ; c\n + 2', 'SELECT 1 ; c + 2'), ('SELECT a /* x */ + b', 'SELECT a /* y */ - b'), ('SELECT 1.0', 'SELECT 1.00'), ('SELECT 1.', 'SELECT 1'),
+              ('SELECT 007', 'SELECT 7.'), ('SELECT "a" AS x', "SELECT 'A' AS x"), ('SELECT a FROM #T', 'SELECT a FROM #t'), ('SELECT a.b', 'SELECT a. b'),
+              ('SELECT x["k"]', 'SELECT x["K"]'), ('JOURNAL "Cash"', 'JOURNAL "cash"'), ('SELECT %(a)s', 'SELECT %(A)s'), ('SELECT a--1', 'SELECT a- -1')]
+
+
+def twin_case(ctx, n):
+    """parse(t) depends on t only: statements that differ only inside a string literal (letter case, inner blanks), in the
+    spelling of a number, or in where an end-of-line comment ends are parsed one after the other, in both orders."""
+    rng = ctx.rng('twin', n)
+    g = syngen.SynGen(rng, idents=syngen.PLAIN_IDENTS, max_depth=2)
+    a, b = rng.choice(TWIN_LITERALS)
+    base = g.select(depth=2)
+    lit_a, lit_b = ir.lit(a, ir.T_STR), ir.lit(b, ir.T_STR)
+    pos = rng.choice(['target', 'where', 'func', 'in'])
+
+    def build(l):
+        q = ir.Query(targets=list(base.targets) or [ir.Target(ir.col('a', None))], table=base.table, where=base.where)
+        if pos == 'target':
+            q.targets = q.targets + [ir.Target(l)]
+        elif pos == 'where':
+            q.where = ir.bin_('eq', ir.col('payee', None), l, None)
+        elif pos == 'func':
+            q.targets = q.targets + [ir.Target(ir.func('f', [ir.col('a', None), l], None))]
+        else:
+            q.where = ir.bin_('in', ir.col('a', None), ir.lit([l.value, 'z'], ir.T_LIST), None)
+        return q
+    qa, qb = build(lit_a), build(lit_b)
+    try:
+        pairs = [(ir.stmt_text(qa), ir.stmt_ast(qa)), (ir.stmt_text(qb), ir.stmt_ast(qb))]
+    except ValueError:
+        return
+    if rng.random() < 0.5:
+        pairs.reverse()
+    for text, exp in pairs:
+        res = parse_shipped(text)
+        ctx.case(('twin', text), True)
+        ctx.count('obs.twin_statements')
+        if res[0] != 'ok' or not ast_same(res[1], exp):
+            ctx.violation('c06.parse_depends_on_history', f'twin/{n}: {text!r} parsed to {res[1] if res[0] == "ok" else res} after its twin, expected {exp}',
+                          {'label': f'twin/{n}', 'texts': [t for t, _ in pairs]})
+            return
+
+
+def fixed_twins(ctx):
+    for a, b in TWIN_TEXTS:
+        for first, second in ((a, b), (b, a)):
+            r1, r2 = parse_shipped(first), parse_shipped(second)
+            d1, d2 = parse_derived(first), parse_derived(second)
+            ctx.count('obs.twin_statements', 2)
+            for text, r, d in ((first, r1, d1), (second, r2, d2)):
+                same_ = (r[0] == d[0]) and (ast_same(r[1], d[1]) if r[0] == 'ok' else r[1:] == d[1:])
+                if not same_:
+                    ctx.violation('c06.parse_depends_on_history', f'{text!r} parsed (after/before its twin) to {r}, a fresh grammar-derived parser gives {d}',
+                                  {'label': 'fixed-twin', 'texts': [first, second]})
+
+
 def run(ctx):
     engine.bq()
     ir.AST_PLACEHOLDERS = True
@@ -333,6 +391,11 @@ def run(ctx):
         if ctx.out_of_time():
             break
         random_case(ctx, n)
+    # F. twins: parsing depends on the text only
+    if ctx.shard % 2 == 0:
+        fixed_twins(ctx)
+    for n in range(ctx.pick(12, 600)):
+        twin_case(ctx, n)
     # E. differential on mutated texts
     rng = ctx.rng('mutate')
     pool = list(_pool)
@@ -370,6 +433,8 @@ def replay(ctx, case):
     label = (case or {}).get('label', '')
     if label.startswith('random/'):
         random_case(ctx, int(label.split('/')[1]))
+    elif label.startswith('twin/'):
+        twin_case(ctx, int(label.split('/')[1]))
     elif 'text' in case:
         differential(ctx, case['text'], label)
         print('shipped:', parse_shipped(case['text']))
@@ -382,6 +447,8 @@ def finalize(merged):
         reasons.append('parent x child x position matrix incomplete')
     if c.get('obs.differential_both_reject', 0) == 0 or c.get('obs.differential_both_accept', 0) == 0:
         reasons.append('differential oracle did not see both accepted and rejected texts')
+    if c.get('obs.twin_statements', 0) == 0:
+        reasons.append('no twin statements parsed')
     if c.get('obs.generated_parser_source_identical', 0) == 0:
         reasons.append('generated parser source comparison not performed or different')
     merged['extra']['matrix_cells_covered'] = len(merged['sets'].get('matrix_cells', ()))
